@@ -52,13 +52,27 @@ func Wrap(t tabular.Table, style string) RenderTable {
 	case "texttable":
 		tt := texttable.Wrap(t)
 		if len(sections) > 1 {
-			tt.SetDecorationNamed(sections[1])
+			setFirstKnownDecoration(tt, sections[1], strings.SplitN(style, ".", 2)[1], style)
 		}
 		return tt
 	default:
 		tt := texttable.Wrap(t)
-		tt.SetDecorationNamed(sections[0])
+		setFirstKnownDecoration(tt, sections[0], style)
 		return tt
+	}
+}
+
+// setFirstKnownDecoration selects the first of the candidate names which is a
+// registered decoration.  Applications may register decoration names which
+// themselves contain dots; ListStyles advertises them, so after the usual
+// first-section lookup the longer spellings are tried too.  If no candidate
+// is known then the table is left without a decoration and will refuse to
+// render.
+func setFirstKnownDecoration(tt *texttable.TextTable, names ...string) {
+	for _, n := range names {
+		if _, err := tt.SetDecorationNamed(n); err == nil {
+			return
+		}
 	}
 }
 
